@@ -18,7 +18,7 @@ import shutil
 
 VERIF = os.path.dirname(os.path.dirname(os.path.abspath(__file__)))
 SEEDED = os.path.join(VERIF, "seeded")
-EV = "/tmp/mutrun/evidence"
+EV = "/tmp/mutrun/evidence_%d" % os.getpid()
 
 
 def sh(cmd, **kw):
